@@ -10,8 +10,7 @@ TRUSTED_BASE = [
     "properties) plus, here, the correspondence on MODULATED inputs (periodogram, Burg, Yule-Walker) and the class-glue correspondence",
     "SVD-based estimators: relative to the SVD contract; checked by the oracle",
 ]
-PARTIAL = ["adaptive multitaper: the stopping test of the iteration is invariant under modulation (it only sees |.|^2 sums), proved per "
-           "evaluation; whole loop checked by the oracle", "MUSIC/EV relative to the SVD parameter"]
+PARTIAL = ["MUSIC/EV relative to the SVD parameter"]
 ASSUMPTIONS = ["orders in domain; tolerance 1e-6 relative (1e-5 for covariance/ARMA least-squares paths)"]
 RULE = ("complex/real data x integer shifts m (all residues for small NFFT, random otherwise) x 14 class variants x NFFT even/odd; "
         "conjugation, time reversal, real-vs-declared-complex")
